@@ -12,6 +12,7 @@ import Peppi.Lemmas.FrameStep
 import Peppi.Lemmas.PortMap
 import Peppi.PremisesViews
 import Peppi.Lemmas.Example
+import Peppi.Lemmas.Lengths
 set_option linter.unusedVariables false
 namespace Peppi.Props.C04
 
@@ -184,5 +185,34 @@ theorem example_A_roundtrip :
     ∀ n, n < (r.encodeAny s.version (portOccupancy s) none).length →
       ∃ e, readSlp T0 {} ((r.encodeAny s.version (portOccupancy s) none).take n) = .err e :=
   _root_.Peppi.example_A_roundtrip 
+
+/- from `Peppi.Lemmas.Lengths` -/
+open Extracted in
+theorem expFrames_lengths (v : Ver) (shape : List PortOccupancy) (h : List FrameOcc) :
+    let F := expFrames v shape h
+    F.id.length = h.length ∧
+    (∀ sc, F.start = some sc → sc.length = h.length) ∧
+    (∀ ec, F.fend = some ec → ec.length = h.length) ∧
+    (∀ o, F.itemOff = some o → o.length = h.length + 1) ∧
+    (∀ it, F.item = some it → it.length = (h.flatMap (·.items)).length) ∧
+    F.ports.length = shape.length ∧
+    (∀ p ∈ F.ports, p.leader.LenIs h.length ∧ ∀ f, p.follower = some f → f.LenIs h.length) :=
+  _root_.Peppi.expFrames_lengths v shape h
+
+/- from `Peppi.Lemmas.Lengths` -/
+open Extracted in
+theorem C04_lengths (T : TextOracle) (r : Replay) (s : Start) (gk : Option GeckoBlocks) (h : r.WFAny T s gk) :
+    ∃ g rest, readP T {} (r.encodeAny s.version (portOccupancy s) gk) = .ok (g, rest) ∧
+      g.frames.id.length = r.frames.length ∧ g.frames.ports.length = (portOccupancy s).length ∧
+      (∀ p ∈ g.frames.ports, p.leader.LenIs r.frames.length ∧ ∀ f, p.follower = some f → f.LenIs r.frames.length) ∧
+      (∀ sc, g.frames.start = some sc → sc.length = r.frames.length) ∧ (∀ ec, g.frames.fend = some ec → ec.length = r.frames.length) ∧
+      (∀ o, g.frames.itemOff = some o → o.length = r.frames.length + 1) :=
+  _root_.Peppi.C04_lengths T r s gk h
+
+/- from `Peppi.Lemmas.Lengths` -/
+open Extracted in
+theorem rebuild_mem : ∀ (shape : List PortOccupancy) (slots : List DCols), slots.length = nSlots shape →
+    ∀ p ∈ rebuild shape slots, p.leader ∈ slots ∧ ∀ f, p.follower = some f → f ∈ slots :=
+  _root_.Peppi.rebuild_mem 
 
 end Peppi.Props.C04
